@@ -144,17 +144,18 @@ def match_optional(items, observed):
     """items: [(verdict, value)], observed: list of values.  True iff observed is obtained from
     items by keeping every KEEP, dropping every DROP and any subset of the EITHERs, in order."""
     items = [(v, x) for v, x in items if v != DROP]
-    n, m = len(items), len(observed)
-    # reach[j] = True if the items consumed so far can produce observed[:j]
-    reach = [True] + [False] * m
+    m = len(observed)
+    # reach = the set of j such that the items consumed so far can produce observed[:j]
+    # (kept sparse: its size is at most the number of EITHER items + 1, so long lists stay cheap)
+    reach = {0}
     for v, x in items:
-        new = [False] * (m + 1)
-        for j in range(m + 1):
-            if not reach[j]:
-                continue
+        new = set()
+        for j in reach:
             if j < m and observed[j] == x:
-                new[j + 1] = True
+                new.add(j + 1)
             if v == EITHER:
-                new[j] = True
+                new.add(j)
+        if not new:
+            return False
         reach = new
-    return reach[m]
+    return m in reach
